@@ -165,59 +165,74 @@ Section MemoModel.
   (* ---------------------------------------------------------------- lookups whose caller cancels its context
      The caller takes k elements from the result channel, cancels the context and stops receiving.  What the code does:
        hit : `select { case <-ctx.Done(): return nil; case out <- o }`  - the first k cached elements, NO error;
-       miss: `select { case <-ctx.Done(): return errors.New("context cancelled"); case out <- o: append }` - the first k
-             elements of the forwarded lookup, the error, and NOTHING is stored (the function returns before the store).
-             The forwarded lookup is not drained: when it still has two or more undelivered elements (one is in the
-             memoizer's hand and is dropped) it stays blocked on its channel for ever - `leak` below; with
-             storage/memory it keeps the graph's read lock and every later write blocks.
+       miss: `select { case <-ctx.Done(): go drain(c); return errors.New("context cancelled"); case out <- o: append }` -
+             the first k elements of the forwarded lookup, the error, and NOTHING is stored (the function returns before
+             the store).  Since fix F23 the forwarded lookup is drained in the background, so it always returns; before
+             the fix it stayed blocked for ever when two or more elements were still undelivered (handle_step_c_f23).
      When the answer has no more than k elements the channel is closed before the caller cancels: an ordinary lookup.
      Exist does not look at the context. *)
   Inductive creq := CPlain (r : req) | CCancel (q : query) (k : nat).
 
-  Definition handle_step_c (cancelled : err) (s : istate) (h : handle) (r : creq)
-    : istate * handle * answer * bool :=
+  Definition handle_step_c (cancelled : err) (s : istate) (h : handle) (r : creq) : istate * handle * answer :=
     match r with
-    | CPlain r => (handle_step s h r, false)
+    | CPlain r => handle_step s h r
     | CCancel q k =>
-        if is_exist q then (handle_step s h (Read q), false)
+        if is_exist q then handle_step s h (Read q)
         else
           match probe h q with
           | Some (AList v e) =>
-              if Nat.ltb k (length v) then (s, h, AList (firstn k v) None, false) else (s, h, AList v e, false)
-          | Some a => (s, h, a, false)
+              if Nat.ltb k (length v) then (s, h, AList (firstn k v) None) else (s, h, AList v e)
+          | Some a => (s, h, a)
           | None =>
               let '(s', a) := inner_step s (h_gid h) (Read q) in
               match a with
               | AList l e =>
                   if Nat.ltb k (length l)
-                  then (s', h, AList (firstn k l) (Some cancelled), Nat.leb (k + 2) (length l))
-                  else (s', store_after h q a, a, false)
-              | _ => (s', store_after h q a, a, false)
+                  then (s', h, AList (firstn k l) (Some cancelled))
+                  else (s', store_after h q a, a)
+              | _ => (s', store_after h q a, a)
               end
           end
     end.
 
+  (* the tree BEFORE fix F23: the same step, plus the flag "the forwarded lookup was left blocked for ever" (one element
+     is in the memoizer's hand and is dropped; a second undelivered one blocks the wrapped lookup on its channel) *)
+  Definition handle_step_c_f23 (cancelled : err) (s : istate) (h : handle) (r : creq)
+    : istate * handle * answer * bool :=
+    match r with
+    | CCancel q k =>
+        if is_exist q then (handle_step_c cancelled s h r, false)
+        else
+          match probe h q with
+          | Some _ => (handle_step_c cancelled s h r, false)
+          | None =>
+              match snd (inner_step s (h_gid h) (Read q)) with
+              | AList l _ => (handle_step_c cancelled s h r, Nat.ltb k (length l) && Nat.leb (k + 2) (length l))
+              | _ => (handle_step_c cancelled s h r, false)
+              end
+          end
+    | _ => (handle_step_c cancelled s h r, false)
+    end.
+
   Inductive chop := COpen (g : gid) | CDo (h : nat) (r : creq).
 
-  Definition memo_step_c (cancelled : err) (st : mstate) (o : chop) : mstate * answer * bool :=
+  Definition memo_step_c (cancelled : err) (st : mstate) (o : chop) : mstate * answer :=
     match o with
-    | COpen g => (mkM (m_inner st) (m_handles st ++ [fresh g]), AAck None, false)
+    | COpen g => (mkM (m_inner st) (m_handles st ++ [fresh g]), AAck None)
     | CDo i r =>
         match nth_error (m_handles st) i with
-        | None => (st, ABadHandle, false)
+        | None => (st, ABadHandle)
         | Some h =>
-            let '(s', h', a, lk) := handle_step_c cancelled (m_inner st) h r in
-            (mkM s' (upd_nth i h' (m_handles st)), a, lk)
+            let '(s', h', a) := handle_step_c cancelled (m_inner st) h r in
+            (mkM s' (upd_nth i h' (m_handles st)), a)
         end
     end.
 
-  (* a history ends at the first leak (the wrapped store is wedged from then on); the flag says whether it did *)
-  Fixpoint memo_run_c (cancelled : err) (st : mstate) (ops : list chop) : mstate * list answer * bool :=
+  Fixpoint memo_run_c (cancelled : err) (st : mstate) (ops : list chop) : mstate * list answer :=
     match ops with
-    | [] => (st, [], false)
-    | o :: r => let '(st', a, lk) := memo_step_c cancelled st o in
-                if lk then (st', [a], true)
-                else let '(st'', l, lk') := memo_run_c cancelled st' r in (st'', a :: l, lk')
+    | [] => (st, [])
+    | o :: r => let '(st', a) := memo_step_c cancelled st o in
+                let '(st'', l) := memo_run_c cancelled st' r in (st'', a :: l)
     end.
 
   (* what the caller of a cancelled lookup is entitled to: the first k elements of the wrapped store's answer *)
